@@ -85,6 +85,12 @@ pub fn cases(ctx: &Ctx) -> Vec<Case> {
                 ops: vec![Op::Add(0, Sz::new(2, 0, 300)), Op::Add(1, Sz::lit(3000)), Op::Finalize],
                 seed: ctx.seed ^ 0xB10C ^ i as u64,
             };
+            // steered: block 0 ends right after a chunk edge / an input window edge
+            let grid = if layers == 3 { crate::shapes::Grid::Chunk } else { crate::shapes::Grid::Window };
+            if let Some(p) = crate::shapes::block_end(&k, ctx.seed, layers, 1, grid, 1, true, false) {
+                v.push(Case::ReadAtBlockEnds { prog: p.clone(), back: 2 });
+                v.push(Case::Read { prog: p, sched: Sched::Max(4095), cut_permille: 1000 });
+            }
             v.push(Case::ReadAtBlockEnds { prog: two.clone(), back: 1 });
             if !ctx.quick() {
                 v.push(Case::ReadAtBlockEnds { prog: two, back: 64 });
